@@ -1,5 +1,6 @@
 import Ach.Proofs.Mono
 import Ach.Generated.Checks
+import Ach.Props.Dispatch
 /-!
 # C15 — relaxation options only ever relax
 
@@ -13,8 +14,13 @@ import Ach.Generated.Checks
   breaks this obligation.  This is what justifies treating the unmodelled record-level checks as monotone.
 * `flag_list` (F) — the option structure still has the flags the property names.
 
-Not covered by a theorem: that parsing is independent of the 15 flags (the Reader consults only `PreserveSpaces`,
-`AllowMissingFileHeader/Control`, `SkipAll`); the oracle searches pairs O ⊆ O' on the real Reader.
+* `reader_accept_monotone` — on the model of the Reader's record dispatcher (`Ach.ReaderSM`, tied by the `reader`
+  stream): a record sequence `Read` accepts stays accepted when more of the record- and batch-level validations it
+  runs succeed and when a missing file header / control becomes allowed.  With `guards_only_relax` (every validation
+  can only succeed more often under a larger option set) this lifts monotonicity from `Validate` to `Read`.
+
+Not covered by a theorem: that *parsing* (field extraction) is independent of the 15 flags (the Reader consults only
+`PreserveSpaces`, `AllowMissingFileHeader/Control`, `SkipAll`); the oracle searches pairs O ⊆ O' on the real Reader.
 -/
 namespace Ach.Props.C15
 open Ach Ach.Gen
@@ -24,6 +30,15 @@ theorem accept_monotone_batch (o o' : Opts) (h : o.le o') (b : VBatch) :
 
 theorem accept_monotone_file (o o' : Opts) (h : o.le o') (f : VFile) :
     fileValidate o f = true → fileValidate o' f = true := fileValidate_mono h f
+
+open Ach.ReaderSM in
+theorem reader_accept_monotone (rs : List Rec) (vs ws : List Bits) (hv : vs.length = rs.length) (hw : ws.length = rs.length)
+    (hle : ∀ i (h1 : i < vs.length) (h2 : i < ws.length), Bits.le vs[i] ws[i])
+    (allowNoHeader allowNoControl allowNoHeader' allowNoControl' : Bool)
+    (ha : allowNoHeader = true → allowNoHeader' = true) (hb : allowNoControl = true → allowNoControl' = true)
+    (h : (finish allowNoHeader allowNoControl (run init (rs.zip vs))).errs = []) :
+    (finish allowNoHeader' allowNoControl' (run init (rs.zip ws))).errs = [] :=
+  Dispatch.read_monotone rs vs ws hv hw hle _ _ _ _ ha hb h
 
 def relaxationFlags : List String :=
   ["BypassOriginValidation", "BypassDestinationValidation", "CustomTraceNumbers", "AllowZeroBatches",
